@@ -1,7 +1,7 @@
 (** The two heartbeat automata of Eio/Heartbeat.v composed through a link (C14, "never kill a live
     one" for the whole connection).
 
-    Pings written by the server loop travel to the client, where handlePacket deposits a token for
+    Pings written by the server loop travel to the client (on either transport, across a swap), where handlePacket deposits a token for
     the watchdog and writes the pong; pongs travel back to onPong.  Each direction is a FIFO of
     messages in flight (stamped with their send time).  A message is delivered no earlier than it
     was sent and no later than [lDown] (server -> client) / [lUp] (client -> server, including the
@@ -12,44 +12,70 @@
 From SioV Require Export Eio.Heartbeat.
 Open Scope Z_scope.
 
-Record link := mkLink { lDown : Z; lUp : Z }.
+(** The downlink (server -> client) carries typed packets.  While the session is on long-polling
+    they wait in the transport's queue until a poll picks them up; on an upgrade
+    (serverSocket.upgradeTo) the packets still queued in the old transport are taken out
+    (old.QueuedPackets()) and re-sent on the new one, filtered: the code keeps everything but NOOP.
+    The filter is the parameter [lKeep] of the link so that the theorem can say exactly what it
+    needs of it (pings survive a swap); [keep_code] is the filter of the code. *)
+Inductive dpkt :=
+| DPing (s : Z)       (* heartbeat ping written by the loop at s *)
+| DMsg                (* application message / close packet *)
+| DNoop.              (* NOOP forcing a poll cycle *)
 
-Record xst := mkX { xs : sst; xc : cst; xping : list Z; xpong : list Z; xlast : Z }.
+Definition keep_code (p : dpkt) : bool := match p with DNoop => false | _ => true end.
+
+Record link := mkLink { lDown : Z; lUp : Z; lKeep : dpkt -> bool }.
+
+Fixpoint pings_of (q : list dpkt) : list Z :=
+  match q with
+  | [] => []
+  | DPing s :: q' => s :: pings_of q'
+  | _ :: q' => pings_of q'
+  end.
+
+Record xst := mkX { xs : sst; xc : cst; xdown : list dpkt; xpong : list Z; xlast : Z }.
 
 Inductive xev :=
 | XS (e : sev)        (* a step of the server loop (SPong excluded: pongs come from the link) *)
 | XC (e : cev)        (* a step of the client watchdog (CPing excluded) *)
-| XDeliverPing        (* head of the ping FIFO reaches handlePacket: token + pong written *)
+| XSend (p : dpkt)    (* the server side queues a message or a NOOP (DPing excluded: only SWake pings) *)
+| XSwap               (* transport upgrade: queued packets are carried over through [lKeep] *)
+| XDeliver            (* head of the downlink reaches the client; a ping: token + pong written *)
 | XDeliverPong.       (* head of the pong FIFO reaches onPong *)
 
-Definition xstep (c : cfg) (st : xst) (t : Z) (e : xev) : option xst :=
+Definition xstep (c : cfg) (l : link) (st : xst) (t : Z) (e : xev) : option xst :=
   match e with
   | XS SPong => None
   | XS SWake =>
       match sstep c (xs st) t SWake with
-      | Some s' => Some (mkX s' (xc st) (xping st ++ [t]) (xpong st) (xlast st))
+      | Some s' => Some (mkX s' (xc st) (xdown st ++ [DPing t]) (xpong st) (xlast st))
       | None => None
       end
   | XS e' =>
       match sstep c (xs st) t e' with
-      | Some s' => Some (mkX s' (xc st) (xping st) (xpong st) (xlast st))
+      | Some s' => Some (mkX s' (xc st) (xdown st) (xpong st) (xlast st))
       | None => None
       end
   | XC CPing => None
   | XC e' =>
       match cstep c (xc st) t e' with
-      | Some c' => Some (mkX (xs st) c' (xping st) (xpong st) (xlast st))
+      | Some c' => Some (mkX (xs st) c' (xdown st) (xpong st) (xlast st))
       | None => None
       end
-  | XDeliverPing =>
-      match xping st with
-      | s :: rest =>
+  | XSend (DPing _) => None
+  | XSend p => Some (mkX (xs st) (xc st) (xdown st ++ [p]) (xpong st) (xlast st))
+  | XSwap => Some (mkX (xs st) (xc st) (filter (lKeep l) (xdown st)) (xpong st) (xlast st))
+  | XDeliver =>
+      match xdown st with
+      | DPing s :: rest =>
           if s <=? t then
             match cstep c (xc st) t CPing with
             | Some c' => Some (mkX (xs st) c' rest (xpong st ++ [t]) t)
             | None => None
             end
           else None
+      | _ :: rest => Some (mkX (xs st) (xc st) rest (xpong st) (xlast st))
       | [] => None
       end
   | XDeliverPong =>
@@ -57,7 +83,7 @@ Definition xstep (c : cfg) (st : xst) (t : Z) (e : xev) : option xst :=
       | p :: rest =>
           if p <=? t then
             match sstep c (xs st) t SPong with
-            | Some s' => Some (mkX s' (xc st) (xping st) rest (xlast st))
+            | Some s' => Some (mkX s' (xc st) (xdown st) rest (xlast st))
             | None => None
             end
           else None
@@ -68,9 +94,11 @@ Definition xstep (c : cfg) (st : xst) (t : Z) (e : xev) : option xst :=
 Definition head_deadline (q : list Z) (bound : Z) : option Z :=
   match q with s :: _ => Some (s + bound) | [] => None end.
 
+(** The oldest queued ping must have reached the client [lDown] after it was written - whether it
+    went out on a poll, or waited in the polling queue and was carried over by a swap. *)
 Definition xwithin (c : cfg) (l : link) (st : xst) (t : Z) : bool :=
   within (sdeadline c (xs st)) t && within (cdeadline c (xc st)) t
-  && within (head_deadline (xping st) (lDown l)) t && within (head_deadline (xpong st) (lUp l)) t.
+  && within (head_deadline (pings_of (xdown st)) (lDown l)) t && within (head_deadline (xpong st) (lUp l)) t.
 
 (** no close from outside the heartbeat on either side *)
 Definition x_no_ext (e : xev) : bool :=
@@ -81,7 +109,7 @@ Fixpoint xrun (c : cfg) (l : link) (st : xst) (now : Z) (evs : list (Z * xev)) :
   | [] => Some (st, now)
   | (t, e) :: evs' =>
       if (now <=? t) && xwithin c l st t && x_no_ext e
-      then match xstep c st t e with
+      then match xstep c l st t e with
            | Some st' => xrun c l st' t evs'
            | None => None
            end
